@@ -23,7 +23,7 @@ from puresnmp.adt import (
 )
 from puresnmp.credentials import V3, Credentials
 from puresnmp.exc import SnmpError
-from puresnmp.pdu import GetRequest, PDUContent
+from puresnmp.pdu import GetRequest, PDUContent, Report
 from puresnmp.plugins.security import SecurityModel
 from puresnmp.transport import MESSAGE_MAX_SIZE
 from puresnmp.util import get_request_id, localise_key, validate_response_id
@@ -552,6 +552,10 @@ def validate_usm_message(message: PlainMessage) -> None:
     :raises SnmpError: If an error was found
     """
     pdu = message.scoped_pdu.data.value
+    if not isinstance(message.scoped_pdu.data, Report):
+        # The USM statistics are ordinary (readable) objects. They only
+        # signal an error when the agent sends them in a report.
+        return
     errors = {
         ObjectIdentifier(
             "1.3.6.1.6.3.15.1.1.1.0"
